@@ -16,6 +16,8 @@ def dig(a):
             return "obj:" + hashlib.sha256(repr(a).encode()).hexdigest()[:12]
     if isinstance(a, np.ndarray):
         if a.dtype == object:
+            if a.shape == () and a.item() is None:
+                return "none"                      # np.copy(None): what deep_copy makes of a statistic not fitted yet
             return "obj:" + hashlib.sha256(repr(a.tolist()).encode()).hexdigest()[:12]
         c = np.ascontiguousarray(a)
         return hashlib.sha256(str(c.dtype).encode() + str(c.shape).encode() + c.tobytes()).hexdigest()[:16]
